@@ -60,6 +60,12 @@ def apis(tmp):
         'fnmatch.fnmatch': lambda p, e, l: F.fnmatch('zz', p, flags=B, **kw(l, e)),
         'fnmatch.filter': lambda p, e, l: F.filter(['zz'], p, flags=B, **kw(l, e)),
         'fnmatch.translate': lambda p, e, l: F.translate(p, flags=B, **kw(l, e)),
+        # the names given do not matter to the count: an empty list / tuple / iterator of names
+        'fnmatch.filter, no names': lambda p, e, l: F.filter([], p, flags=B, **kw(l, e)),
+        'fnmatch.filter, empty tuple': lambda p, e, l: F.filter((), p, flags=B, **kw(l, e)),
+        'fnmatch.filter, empty iterator': lambda p, e, l: F.filter(iter([]), p, flags=B, **kw(l, e)),
+        'glob.globfilter, no names': lambda p, e, l: G.globfilter([], p, flags=G.BRACE | G.SPLIT, **kw(l, e)),
+        'fnmatch.compile.filter, no names': lambda p, e, l: F.compile(p, flags=B, **kw(l, e)).filter([]),
         'fnmatch.compile': lambda p, e, l: F.compile(p, flags=B, **kw(l, e)),
         'glob.globmatch': lambda p, e, l: G.globmatch('zz', p, flags=G.BRACE | G.SPLIT, **kw(l, e)),
         'glob.globfilter': lambda p, e, l: G.globfilter(['zz'], p, flags=G.BRACE | G.SPLIT, **kw(l, e)),
@@ -303,6 +309,8 @@ def run(ctx):
         ctx.counted('what counts as one pattern (case twins, the empty string)', ne, ne, [{'patterns': ['a', 'b'], 'exclude': ['\xe9', '\xc9'], 'flags': 'IGNORECASE', 'limit': 3}])
     finally:
         shutil.rmtree(tmp, ignore_errors=True)
+    from props import glue
+    glue.limit_zero(ctx)
     return ctx.finish(RULE)
 
 
